@@ -247,9 +247,7 @@ impl AlternateTime {
         match self.std.ut_offset.cmp(&self.dst.ut_offset) {
             Ordering::Equal => Ok(crate::MappedLocalTime::Single(self.std)),
             Ordering::Less => {
-                if self.dst_start.transition_date(current_year).0
-                    < self.dst_end.transition_date(current_year).0
-                {
+                if dst_start_transition_start < dst_end_transition_start {
                     // northern hemisphere
                     // For the DST END transition, the `start` happens at a later timestamp than the `end`.
                     if local_time <= dst_start_transition_start {
@@ -292,9 +290,7 @@ impl AlternateTime {
                 }
             }
             Ordering::Greater => {
-                if self.dst_start.transition_date(current_year).0
-                    < self.dst_end.transition_date(current_year).0
-                {
+                if dst_start_transition_start < dst_end_transition_start {
                     // southern hemisphere reverse DST
                     // For the DST END transition, the `start` happens at a later timestamp than the `end`.
                     if local_time < dst_start_transition_end {
